@@ -85,7 +85,7 @@ func VP_C07_isolation() {
 
 //vp:property C07
 //vp:set s 2 3
-//vp:bounds two legacy/websocket requests with connection ids of 1..s symbolic bytes each (equal or different), each RDG_OUT_DATA (legacy or websocket upgrade) or RDG_IN_DATA; cache entries may expire at any lookup; IN connections deliver a handshake and drop
+//vp:bounds two legacy/websocket requests whose connection ids are a common constant prefix of 0, 36, 38 or 64 characters followed by 0..s symbolic bytes each (equal or different; non-empty), each RDG_OUT_DATA (legacy or websocket upgrade) or RDG_IN_DATA; cache entries may expire at any lookup; IN connections deliver a handshake and drop
 //vp:reach paired separate
 func VP_C07_pairing() {
 	vpResetHandlers()
@@ -97,7 +97,8 @@ func VP_C07_pairing() {
 	var trs [2]*vpTransport
 	for i := 0; i < 2; i++ {
 		is := itoa(i)
-		ids[i] = vpString("id"+is, n)
+		// a common prefix of GUID-like length (0, 36, 38 or 64 characters) followed by a symbolic suffix
+		ids[i] = vpIDPrefix[:[]int{0, 36, 38, 64}[vpIntRange("idprefix", 0, 3)]] + vpString("id"+is, n)
 		vpAssume(len(ids[i]) >= 1)
 		kinds[i] = vpIntRange("kind"+is, 0, 2) // 0 legacy OUT, 1 legacy IN, 2 websocket
 		trs[i] = vpScript(1, 0)
@@ -148,5 +149,51 @@ func VP_C07_pairing() {
 	// the pairing works at all: OUT then IN with the same id and no expiry share a tunnel
 	if kinds[0] == 0 && kinds[1] == 1 && ids[0] == ids[1] && !vpExpiredAny {
 		vpAssert(shared, "legacy-out-then-in-with-the-same-id-form-one-tunnel")
+	}
+}
+
+const vpIDPrefix = "{01234567-89ab-cdef-0123-456789abcdef}-0123456789abcdef012345678"
+
+//vp:property C07 C06
+//vp:set maxalloc 16 16
+//vp:bounds two tunnels with open channels (own backends); tunnel A relays one DATA packet (payload of 1..4 symbolic bytes), then tunnel B's client sends one DATA packet with an arbitrary body of 0..6 bytes (length field symbolic, up to carried+4); and the same with the roles swapped by symmetry of the harness
+//vp:reach relayed
+func VP_C07_data_isolation() {
+	vpResetHandlers()
+	gw := &Gateway{}
+	mk := func(tr *vpTransport) (*Tunnel, *Processor, *vpConn) {
+		c := &vpConn{block: true}
+		t := &Tunnel{transportIn: tr, transportOut: tr, User: vpUser(), rwc: c}
+		p := NewProcessor(gw, t)
+		p.state = SERVER_STATE_OPENED
+		return t, p, c
+	}
+	pa := vpBytes("payload-a", 4)
+	vpAssume(len(pa) >= 1)
+	trA := &vpTransport{in: [][]byte{vpPacket(0xA, append([]byte{byte(len(pa)), 0}, pa...))}}
+	bodyB := vpBytes("body-b", 6)
+	vpAssume(vpLE16(bodyB, 0) <= uint16(len(bodyB)+4))
+	trB := &vpTransport{in: [][]byte{vpPacket(0xA, bodyB)}}
+	_, pA, cA := mk(trA)
+	_, pB, cB := mk(trB)
+	pA.Process(vpCtx())
+	pB.Process(vpCtx())
+	vpReach("relayed")
+	var gotA, gotB []byte
+	for _, w := range cA.written {
+		gotA = append(gotA, w...)
+	}
+	for _, w := range cB.written {
+		gotB = append(gotB, w...)
+	}
+	vpAssert(vpEqBytes(gotA, pa), "host-a-receives-exactly-client-as-payload")
+	// host B receives only bytes client B sent: a prefix of what its packet carried
+	var carried []byte
+	if len(bodyB) > 2 {
+		carried = bodyB[2:]
+	}
+	vpAssert(len(gotB) <= len(carried), "host-b-receives-no-more-than-client-b-sent")
+	if len(gotB) <= len(carried) {
+		vpAssert(vpEqBytes(gotB, carried[:len(gotB)]), "host-b-receives-only-bytes-of-its-own-client")
 	}
 }
